@@ -27,6 +27,9 @@ CLAIMED = {
  "C16": dict(cat="other", technique="CrossHair on the real lex() over a contract-stub lexer with symbolic offsets, lengths, kinds and newline offsets; unit contracts on symbolic strings",
              text="Bounded in the number of tokens/newlines per query (3/3), unbounded in every offset and length; the oracle is the definition of line/column from newline offsets. What Pygments emits for a text is assumed to follow its documented contract (zero-length tokens included).",
              ref="DESIGN.md 3/C16"),
+ "C17": dict(cat="other", technique="CrossHair on the real filter_nocl_comment_tokens with the comment text assembled from solver-chosen parts; skeleton differential through scan_file with the marker at a symbolic line",
+             text="Bounded-exhaustive through the solver over the stated pools (leader, blanks, every letter case, tails; all short bodies over a small alphabet); line numbers unbounded.",
+             ref="DESIGN.md 3/C17"),
 }
 NA = {}
 def main():
